@@ -217,6 +217,27 @@ func checkWritePrimitives(c *Ctx, r *Report) {
 				if !guarded {
 					ok, msg = false, "the return is written although writing the bytes failed (or the write error is not tested)"
 				}
+				// every way out: after the bytes were written, and -- unless that write failed -- after the return
+				allInstrs(war, func(in ssa.Instruction) {
+					ret, isRet := in.(*ssa.Return)
+					if !isRet || !ok {
+						return
+					}
+					if !dominatesInstr(ws[0], ret) {
+						ok, msg = false, "WriteAndReturn can return ("+c.Pos(ret.Pos())+") without having written the caller's bytes: for some input (e.g. an empty one) neither the bytes nor the return reach the device"
+						return
+					}
+					if dominatesInstr(rs[0], ret) {
+						return
+					}
+					failed := len(errs) == 1 && guardedBy(ret, func(v ssa.Value, t bool) bool {
+						x, nonNilOnTrue, isNil := nilCheck(v)
+						return isNil && x == errs[0] && t == nonNilOnTrue
+					})
+					if !failed {
+						ok, msg = false, "WriteAndReturn can return ("+c.Pos(ret.Pos())+") after a successful write of the bytes without writing the return"
+					}
+				})
 			}
 		}
 		r.Check(ok, rule, "WriteAndReturn = Write then WriteReturn", c.Pos(war.Pos()), "Write(b, r); on success WriteReturn()", msg)
